@@ -256,9 +256,21 @@ fn apply(p: &mut rpm::Package, op: &str) -> Result<Option<usize>, ()> {
             *p = rpm::Package::parse(&mut &bytes[..]).map_err(|_| ())?;
             Ok(None)
         }
+        _ if op.len() == 2 && op.starts_with('x') => {
+            // a signing attempt the signer refuses: the protected key WITHOUT its passphrase. `sign` must fail and
+            // leave the package as it was (the record that follows shows the state).
+            let sec = std::fs::read(format!("{}/secret_{}.asc", KEYDIR, NAMES[1])).map_err(|_| ())?;
+            let locked = Signer::load_from_asc_bytes(&sec).map_err(|_| ())?;
+            match p.sign_with_timestamp(locked, T) {
+                Err(_) => Ok(None),
+                Ok(()) => Ok(Some(1)),
+            }
+        }
         _ => {
-            let idx = LETTERS.iter().position(|l| op.len() == 2 && op.starts_with('s') && op.ends_with(*l)).ok_or(())?;
-            p.sign_with_timestamp(MemoSigner { idx }, T).map_err(|_| ())?;
+            let future = op.starts_with('S');
+            let idx = LETTERS.iter().position(|l| op.len() == 2 && (op.starts_with('s') || future) && op.ends_with(*l)).ok_or(())?;
+            // `S<key>`: a creation time far in the future of every clock involved
+            p.sign_with_timestamp(MemoSigner { idx }, if future { 4_000_000_000u32 } else { T }).map_err(|_| ())?;
             Ok(Some(idx))
         }
     }
@@ -477,6 +489,12 @@ pub fn gen(ctx: &mut Ctx) {
                 continue;
             }
         };
+        // histories with a refused signing attempt in the middle, and with signatures dated in the future
+        for (hi, h) in ["xP", "sE,xP", "sR,w,xP,w", "c,xP", "xP,sC", "sE,xP,c", "SE", "sR,SE,w", "SR,c,SC", "SP,w,sR"].iter().enumerate() {
+            if (n + hi) as u64 % ctx.shard.1 == ctx.shard.0 && (ctx.thorough || n < 3 || hi % 3 == n % 3) {
+                ctx.req(&format!("hist {} {} {} {}", kind, blob, h, ids));
+            }
+        }
         let first = record(&p, None, gpg);
         let mut w = Walk { ctx: &mut *ctx, kind, blob, ids: ids.clone(), gpg, depth, base: n as u64 * 37 };
         w.dfs(&p, &mut Vec::new(), &mut vec![first]);
